@@ -311,6 +311,8 @@ class Engine:
         bv = ctx.get("bound")
         if bv and n in bv:
             return bv[n]
+        if spec and n == "return_value" and "result" in ctx:     # the returned value, for functions with a local called `result`
+            return ctx["result"]
         if n in st.vars:
             return st.vars[n]
         if not spec and n in self.c.attrs:      # a name the contract defines by a spec expression (block contracts)
@@ -746,6 +748,8 @@ class Engine:
                 cc = self.contracts.get(f"{self.module}:{cls}.{mname}")
                 if cc is not None:
                     return self.call_method_contract(f"{cls}.{mname}", e, st, ctx, cc)
+            if not spec and unparse(f) in self.c.opaque:      # an assumed contract keyed by the dotted callee text
+                return self.call_contract(unparse(f), e, st, ctx, self.c.opaque[unparse(f)])
             if f.attr == "__new__" and isinstance(recv, ast.Call) and getattr(recv.func, "id", "") == "super" \
                     and len(e.args) == 3 and not spec:
                 # ndarray subclass construction: super().__new__(cls, shape, dtype) allocates an uninitialised array
